@@ -81,6 +81,24 @@ def cases(tier, rng):
                         ops += ["feed %s %s" % (c, W.tok(W.msg([b"", b"ok"]))) for c in live] + ["recv"]
                 out.append("d%d sock %s / %s" % (k, t, " / ".join(ops)))
                 k += 1
+    # ... and a peer that joins after such a loss (the stale id still queued) takes part in the rotation
+    for t in ("DEALER", "REQ"):
+        for n in (2, 3):
+            names = "abc"[:n]
+            v = names[0]
+            ops = ["attach %s %s" % (c, peer(t)) for c in names]
+            if t == "REQ":
+                ops += ["send 7631"] + ["wire " + c for c in names] + ["eof " + v, "recv"]
+            else:
+                ops += ["feed %s 0009aabb" % v, "eof " + v, "recv"]
+            ops += ["attach e " + peer(t)]
+            live = [c for c in names if c != v] + ["e"]
+            for i in range(2 * len(live) + 1):
+                ops += ["send %s" % W.tok(b"l%d" % i)] + ["wire " + c for c in live]
+                if t == "REQ":
+                    ops += ["feed %s %s" % (c, W.tok(W.msg([b"", b"ok"]))) for c in live] + ["recv"]
+            out.append("d%d sock %s / %s" % (k, t, " / ".join(ops)))
+            k += 1
     # a still-connected server whose reply is malformed (recv returns a format error) stays in the rotation
     for n in (2, 3):
         names = "abc"[:n]
